@@ -101,6 +101,7 @@ type lexer struct {
 	emitted   bool
 	lead      bool
 	start     bool
+	bquote    bool
 }
 
 func newLexer(env *interp.ExecEnv, name string, r io.RuneScanner) *lexer {
@@ -659,6 +660,11 @@ func (l *lexer) lexToken(tok int) action {
 		}
 	case ')', RAE:
 		if l.cmdSubst != 0 && len(l.stack) == 1 {
+			if l.cmdSubst == '`' && !l.bquote {
+				// only '`' ends '`'
+				l.error(l.pos, "syntax error: unexpected ')'")
+				return nil
+			}
 			l.emit(tok)
 			l.stack = nil
 			break
@@ -978,6 +984,7 @@ func (l *lexer) scanRawToken() int {
 					return WORD
 				}
 				if len(l.stack) != 0 {
+					l.bquote = true
 					return ')'
 				}
 				return '('
